@@ -5,6 +5,9 @@ PKGS=$(python3 -c "
 import json,sys
 m=json.load(open('$HERE/MANIFEST.json'))
 print(' '.join(sorted({c['engine'].split('/')[1] for c in m['checks']})))")
+# translators first: generated Lean tables always come from the tree under test, never from a stale checkout
+REPO="${HIO_REPO:-/repo}"
+PYTHONPATH="$REPO/src:$HERE" PYTHONDONTWRITEBYTECODE=1 PYTHONWARNINGS="ignore::SyntaxWarning" HIO_REPO="$REPO" /venv/bin/python "$HERE/tools/regen.py" || exit 2
 rc=0
 pids=""
 for p in $PKGS; do
